@@ -500,6 +500,8 @@ MUTANTS = [
 REPAIRS = []
 
 EQUIV = [
+    dict(name='ChannelList registers itself through the base class by name', file='sc3/synth/ugen.py',
+         old="        super(gpp.UGenSequence, self).__init__(self)\n", new="        gpp.UGenParameter.__init__(self, self)\n"),
     dict(name='Out.ar without the explicit unit-input conversion (seed C20-e after repo fix 10e8abb)', file='sc3/synth/ugens/inout.py',
          old="        output = gpp.ugen_param(utl.as_list(output))\n        output = output._as_ugen_input(cls)\n        output = cls._replace_zeroes_with_silence(output)\n        cls._multi_new('audio', bus, *output)\n        # return 0.0  # // Out has no output.",
          new="        output = utl.as_list(output)\n        output = cls._replace_zeroes_with_silence(output)\n        cls._multi_new('audio', bus, *output)\n        # return 0.0  # // Out has no output."),
